@@ -22,8 +22,17 @@ Mirrors (file → definition):
 
 The language is kept small: markers, `throw new K("s<site>")`, `throw $e`, a host function that panics, `return n`,
 `break`, `continue`, `for` with a constant trip count, a call of a function whose body is given at the call site
-(every function of a generated program is called from exactly one place and there is no recursion, so the whole
-semantics is structurally recursive: no fuel, every theorem is about every program outright).
+(`call`), and a call `g<k>($n - 1)` of one of the program's **named functions** (`callf k`), guarded by `if ($n > 0)`.
+
+**Re-entrancy.** Named functions may call themselves and each other (from a try block, a catch body, a finally block,
+a loop body): every function has one parameter `$n`, a call passes `$n - 1`, and an activation with `$n = 0` makes no
+call. An activation is `Act`: its level `$n` and what a call made *from* it does (`env`, the callee's body run in a
+fresh activation one level down). The statement evaluator `exec / execB / execC` takes the activation as a parameter
+and is structurally recursive on the syntax; `envAt` ties the knot by recursion on the level. So there is still **no
+fuel**: every theorem is about every program, every depth of recursion, outright, and the theorems that quantify over
+`Act` hold whatever the callees do. Every number a statement prints or hands on (marker, try id, return value, site
+of a `new`) carries the level of the activation that executed it, so the trace says *which* activation of a function
+entered a block, returned or threw.
 
 Every run returns the outcome and the event trace; events are what the generated scripts print.
 -/
@@ -45,15 +54,26 @@ inductive Out where
   | panic
 deriving DecidableEq, Repr
 
+/-- `a` = the level `$n` of the activation that executed the statement -/
 inductive Ev where
-  | enterTry (i : Nat)
-  | enterFinally (i : Nat)
-  | caught (i k : Nat) (t : Thrown)     -- clause `k` (0-based, source order) of try `i` starts with `$e` bound to `t`
-  | echo (m : Nat)
+  | enterTry (a i : Nat)
+  | enterFinally (a i : Nat)
+  | caught (a i k : Nat) (t : Thrown)   -- clause `k` (0-based, source order) of try `i` starts with `$e` bound to `t`
+  | echo (a m : Nat)
   | result (v : Option Nat)             -- the caller prints what a call returned
 deriving DecidableEq, Repr
 
 abbrev Res := Out × List Ev
+
+/-- one activation of a function (or of the script's top level): the value of its parameter `$n`, and what the call
+`g<k>($n - 1)` made from it does to the trace (the body of `g<k>` run in a fresh activation one level down, up to the
+point where control comes back to the call) -/
+structure Act where
+  lvl : Nat
+  env : Nat → List Ev → Res
+
+/-- `$n * 1000 + v`: the values an activation returns, and the messages of the objects it throws, identify it -/
+def tag (lvl v : Nat) : Nat := lvl * 1000 + v
 
 mutual
 inductive Stmt where
@@ -66,6 +86,7 @@ inductive Stmt where
   | cont
   | loop (k : Nat) (body : Block)
   | call (body : Block)
+  | callf (k : Nat)
   | try_ (i : Nat) (body : Block) (catches : Catches) (hasFin : Bool) (fin : Block)
 inductive Block where
   | nil
@@ -121,9 +142,9 @@ def tryValue (catchLoop : Thrown → List Ev → Res) : Res → Res
   | r => r
 
 /-- `if len(t.FinallyBlock) > 0 { … if nAcl != nil { return nil, nAcl } }; return v, c` -/
-def finallyPhase (i : Nat) (hasFin : Bool) (runFin : List Ev → Res) (r2 : Res) : Res :=
+def finallyPhase (a i : Nat) (hasFin : Bool) (runFin : List Ev → Res) (r2 : Res) : Res :=
   if hasFin then
-    match runFin (r2.2 ++ [.enterFinally i]) with
+    match runFin (r2.2 ++ [.enterFinally a i]) with
     | (.normal, tr3) => (r2.1, tr3)
     | r3 => r3
   else r2
@@ -134,27 +155,27 @@ def catchPhase (handle : Res → Res) : Res → Res
   | r => handle r
 
 /-- repaired `TryStatement.GetValue` -/
-def tryStmt (i : Nat) (hasFin : Bool) (runBody : List Ev → Res) (catchLoop : Thrown → List Ev → Res)
+def tryStmt (a i : Nat) (hasFin : Bool) (runBody : List Ev → Res) (catchLoop : Thrown → List Ev → Res)
     (runFin : List Ev → Res) (tr : List Ev) : Res :=
-  let r1 := protect (runBody (tr ++ [.enterTry i]))
+  let r1 := protect (runBody (tr ++ [.enterTry a i]))
   let r2 := catchPhase (fun r => protect (tryValue catchLoop r)) r1
-  finallyPhase i hasFin (fun t => protect (runFin t)) r2
+  finallyPhase a i hasFin (fun t => protect (runFin t)) r2
 
 /-- the deferred branch of the pinned code: `v, c = t.tryValue(ctx, NewErrorThrow(panic))`, and return -/
 def recovered (catchLoop : Thrown → List Ev → Res) (tr : List Ev) : Res := catchLoop .internal tr
 
 /-- pinned `TryStatement.GetValue`: wherever the Go panic comes from (body, a catch body, the finally block) the
 deferred function offers it to this statement's catch clauses and returns; the finally loop is not run (again) -/
-def tryPinned (i : Nat) (hasFin : Bool) (runBody : List Ev → Res) (catchLoop : Thrown → List Ev → Res)
+def tryPinned (a i : Nat) (hasFin : Bool) (runBody : List Ev → Res) (catchLoop : Thrown → List Ev → Res)
     (runFin : List Ev → Res) (tr : List Ev) : Res :=
   let fin := fun (r2 : Res) =>
     if hasFin then
-      match runFin (r2.2 ++ [.enterFinally i]) with
+      match runFin (r2.2 ++ [.enterFinally a i]) with
       | (.normal, tr3) => (r2.1, tr3)
       | (.panic, tr3) => recovered catchLoop tr3
       | r3 => r3
     else r2
-  match runBody (tr ++ [.enterTry i]) with
+  match runBody (tr ++ [.enterTry a i]) with
   | (.panic, tr1) => recovered catchLoop tr1
   | (.normal, tr1) => fin (.normal, tr1)
   | r1 =>
@@ -191,37 +212,69 @@ def thrownNew (G : Graph) (cls : Name) (site : Nat) : Thrown :=
 
 /-! ### the evaluator -/
 
+/-- the call `if ($n > 0) { $r = g<k>($n - 1); echo "R…"; }` made from activation `A` -/
+def callNamed (A : Act) (k : Nat) (tr : List Ev) : Res :=
+  if A.lvl = 0 then (.normal, tr) else callResult (A.env k tr)
+
 mutual
-def exec (G : Graph) (cfg : Cfg) (cur : Option Thrown) : Stmt → List Ev → Res
-  | .echo m, tr => (.normal, tr ++ [.echo m])
-  | .throw cls site, tr => (.thr (thrownNew G cls site), tr)
+def exec (G : Graph) (cfg : Cfg) (cur : Option Thrown) (A : Act) : Stmt → List Ev → Res
+  | .echo m, tr => (.normal, tr ++ [.echo A.lvl m])
+  | .throw cls site, tr => (.thr (thrownNew G cls (tag A.lvl site)), tr)
   | .rethrow, tr => (.thr (rethrown cfg cur), tr)
   | .gopanic, tr => (.panic, tr)
-  | .ret v, tr => (.ret v, tr)
+  | .ret v, tr => (.ret (tag A.lvl v), tr)
   | .brk, tr => (.brk, tr)
   | .cont, tr => (.cont, tr)
-  | .loop k body, tr => loopN (fun t => execB G cfg cur body t) k tr
-  | .call body, tr => callResult (execB G cfg none body tr)
+  | .loop k body, tr => loopN (fun t => execB G cfg cur A body t) k tr
+  | .call body, tr => callResult (execB G cfg none A body tr)
+  | .callf k, tr => callNamed A k tr
   | .try_ i body cs hasFin fin, tr =>
     if cfg.guarded then
-      tryStmt i hasFin (fun t => execB G cfg cur body t) (fun x t => execC G cfg i 0 x cs t)
-        (fun t => execB G cfg cur fin t) tr
+      tryStmt A.lvl i hasFin (fun t => execB G cfg cur A body t) (fun x t => execC G cfg A i 0 x cs t)
+        (fun t => execB G cfg cur A fin t) tr
     else
-      tryPinned i hasFin (fun t => execB G cfg cur body t) (fun x t => execC G cfg i 0 x cs t)
-        (fun t => execB G cfg cur fin t) tr
-def execB (G : Graph) (cfg : Cfg) (cur : Option Thrown) : Block → List Ev → Res
+      tryPinned A.lvl i hasFin (fun t => execB G cfg cur A body t) (fun x t => execC G cfg A i 0 x cs t)
+        (fun t => execB G cfg cur A fin t) tr
+def execB (G : Graph) (cfg : Cfg) (cur : Option Thrown) (A : Act) : Block → List Ev → Res
   | .nil, tr => (.normal, tr)
   | .cons s rest, tr =>
-    match exec G cfg cur s tr with
-    | (.normal, tr') => execB G cfg cur rest tr'
+    match exec G cfg cur A s tr with
+    | (.normal, tr') => execB G cfg cur A rest tr'
     | r => r
 /-- the loop of `tryValue` over the catch clauses, `k` = index of the clause at the head -/
-def execC (G : Graph) (cfg : Cfg) (i k : Nat) (x : Thrown) : Catches → List Ev → Res
+def execC (G : Graph) (cfg : Cfg) (A : Act) (i k : Nat) (x : Thrown) : Catches → List Ev → Res
   | .nil, tr => (.thr x, tr)
   | .cons tys body rest, tr =>
-    if clauseMatches G tys x then execB G cfg (some x) body (tr ++ [.caught i k x])
-    else execC G cfg i (k+1) x rest tr
+    if clauseMatches G tys x then execB G cfg (some x) A body (tr ++ [.caught A.lvl i k x])
+    else execC G cfg A i (k+1) x rest tr
 end
+
+/-! ### named functions: the activation one level down
+
+`envAt fns n` is the `env` of an activation whose `$n` is `n`: the call `g<k>($n - 1)` runs the body of function `k`
+with `$n = n - 1`, no catch variable bound, and in turn `envAt fns (n - 1)` for its own calls. An activation with
+`$n = 0` never calls (`callNamed`). A name that is not declared is a runtime error of the interpreter
+(`CallExpression`: a class-less throwable). -/
+
+def envAt (G : Graph) (cfg : Cfg) (fns : List Block) : Nat → Nat → List Ev → Res
+  | 0, _, tr => (.normal, tr)
+  | n+1, k, tr =>
+    match fns[k]? with
+    | some b => execB G cfg none ⟨n, envAt G cfg fns n⟩ b tr
+    | none => (.thr .internal, tr)
+
+/-- a program: the named functions `g0, g1, …`, the top-level statements, and the value `$n` has at top level (the
+top level is itself an activation: its calls pass `$n - 1`) -/
+structure Prog where
+  fns : List Block
+  main : Block
+  depth : Nat
+
+/-- a program without named functions -/
+def Prog.ofBlock (b : Block) : Prog := ⟨[], b, 0⟩
+
+/-- the activation of function bodies / of the top level of `fns` at level `n` -/
+def actAt (G : Graph) (cfg : Cfg) (fns : List Block) (n : Nat) : Act := ⟨n, envAt G cfg fns n⟩
 
 /-! ### top level: `Program.GetValue` -/
 
@@ -242,8 +295,8 @@ def final : Out → Final
   | .cont => .stray
   | .panic => .goPanic
 
-def run (G : Graph) (cfg : Cfg) (p : Block) : Final × List Ev :=
-  let r := execB G cfg none p []
+def run (G : Graph) (cfg : Cfg) (p : Prog) : Final × List Ev :=
+  let r := execB G cfg none (actAt G cfg p.fns p.depth) p.main []
   (final r.1, r.2)
 
 /-! ### the value bound to the catch variable
